@@ -45,7 +45,9 @@ class Unit:
 
 def _sample(obs):
     if not obs: return None
-    name, hyps, goal, detail = obs[len(obs) // 2]
+    cand = [o for o in obs if o[2] is not None]
+    if not cand: return None
+    name, hyps, goal, detail = cand[len(cand) // 2]
     return {'obligation': name, 'hypotheses': len(hyps), 'goal': str(goal)[:400], 'at': detail}
 
 
